@@ -537,10 +537,17 @@ class Interp:
         else:
             self.exec_block(node.orelse, fr)
 
+    def _run_cut(self, cut, node, fr):
+        try:
+            return cut(self, node, fr)
+        except (KeyError, AttributeError, TypeError, IndexError) as e:
+            # the loop no longer has the shape the invariant was written for
+            raise Unsupported('loop invariant not applicable to this loop any more: %s: %s' % (type(e).__name__, e))
+
     def x_While(self, node, fr):
         cut = fr.loop_cut(node)
         if cut is not None:
-            r = cut(self, node, fr)
+            r = self._run_cut(cut, node, fr)
             if r is not NotImplemented:
                 return r
         while self.truth(self.eval(node.test, fr)):
@@ -555,7 +562,7 @@ class Interp:
     def x_For(self, node, fr):
         cut = fr.loop_cut(node)
         if cut is not None:
-            r = cut(self, node, fr)
+            r = self._run_cut(cut, node, fr)
             if r is not NotImplemented:
                 return r
         it = self.eval(node.iter, fr)
@@ -609,6 +616,31 @@ class Interp:
             raise
         else:
             self.exec_block(node.orelse, fr)
+
+    def x_ImportFrom(self, node, fr):
+        """`from .mod import name` inside a function: bind the names as the module's own lookup would"""
+        modname = (node.module or '').split('.')[-1]
+        mi = self.p.modules.get(modname)
+        for al in node.names:
+            nm = al.name
+            target = al.asname or nm
+            if mi is not None and nm in mi.funcs:
+                fr.env[target] = FuncRef(mi.funcs[nm])
+            elif nm in self.p.classes:
+                fr.env[target] = ClassRef(nm)
+            elif nm in self.p.funcs and self.p.funcs[nm].cls is None:
+                fr.env[target] = FuncRef(self.p.funcs[nm])
+            elif mi is not None and hasattr(mi.native, nm):
+                fr.env[target] = self.lift(getattr(mi.native, nm))
+            else:
+                raise Unsupported('import of %s from %s' % (nm, node.module))
+
+    def x_Import(self, node, fr):
+        for al in node.names:
+            if al.name in ('re', 'math'):
+                fr.env[al.asname or al.name] = ModuleRef(al.name)
+            else:
+                raise Unsupported('import %s' % al.name)
 
     def x_Assert(self, node, fr):
         if not self.truth(self.eval(node.test, fr)):
